@@ -346,6 +346,9 @@ func VerifSyncLoop() {
 			panic("start-up schema code: " + err.Error())
 		}
 		vrt.Assert("C02.start-up-leaves-the-committed-ledger-untouched", vrt.SameStore(atRest, vrt.Snapshot(db2)))
+		// read as C14: the two holder snapshots are persistent state - a start of the daemon between two
+		// snapshot blocks must leave them as they are, or the next payout takes its minimum with nothing
+		vrt.Assert("C14.start-up-keeps-the-holder-snapshots", vrt.SameStore(atRest, vrt.Snapshot(db2)))
 		s := vrtSyncedHeight(db2)
 		vrt.ObserveI64("synced-after-crash", int64(s))
 		vrt.Assert("C02.crash-leaves-a-committed-height", s >= sc.start && s <= tip)
